@@ -338,7 +338,10 @@ func (gen *generator) irGlobal(new *ir.Global, old *ast.GlobalDecl) error {
 	if oldFuncAttrs := old.FuncAttrs(); len(oldFuncAttrs) > 0 {
 		new.FuncAttrs = make([]ir.FuncAttribute, len(oldFuncAttrs))
 		for i, oldFuncAttr := range oldFuncAttrs {
-			funcAttr := gen.irFuncAttribute(oldFuncAttr)
+			funcAttr, err := gen.irFuncAttribute(oldFuncAttr)
+			if err != nil {
+				return errors.WithStack(err)
+			}
 			new.FuncAttrs[i] = funcAttr
 		}
 	}
@@ -578,7 +581,10 @@ func (gen *generator) irFuncHeader(new *ir.Func, old ast.FuncHeader) error {
 		switch funcHdrField := funcHdrField.(type) {
 		// (optional) Function attributes.
 		case ast.FuncAttribute:
-			funcAttr := gen.irFuncAttribute(funcHdrField)
+			funcAttr, err := gen.irFuncAttribute(funcHdrField)
+			if err != nil {
+				return errors.WithStack(err)
+			}
 			new.FuncAttrs = append(new.FuncAttrs, funcAttr)
 		// (optional) Alignment.
 		case *ast.Align:
